@@ -63,6 +63,9 @@ Proof.
   - cbn [fst]. unfold store_step. destruct (inflight s); [|split; reflexivity].
     destruct (flushing s) as [[g fb]|]; [|split; reflexivity].
     destruct (nth_error fb (N.to_nat i)) as [[k v]|]; split; reflexivity.
+  - cbn [fst]. unfold complete_exist. destruct (inflight s); [|split; reflexivity]. cbn [set_tm flog primary].
+    apply complete_frame2.
+  - cbn [fst]. unfold tm_start. destruct (_ && _); split; reflexivity.
 Qed.
 
 Lemma pinv_step P s o : binv s -> pinv s -> pinv (fst (step P s o)).
